@@ -110,7 +110,7 @@ def check(env, rep, tier):
     include(rep, env, tier, "c19", ("C19.5",), "C14.7",
             "'operations on one resource never change another resource's observers': the registry is keyed by the request's path text, "
             "which has to tell apart every two different segment lists the setter can produce (leading empty segments kept)")
-    include(rep, env, tier, "c15", ("C15.2", "C15.4"), "C14.6", "'for every history of ... notification rounds and acknowledgements': which observers a later round drops depends on the pending id and the counter every round and acknowledgement leave behind")
+    include(rep, env, tier, "c15", ("C15.2", "C15.3", "C15.4"), "C14.6", "'for every history of ... notification rounds and acknowledgements': which observers a later round drops depends on the pending id and the counter every round and acknowledgement leave behind")
     configs = ["default"] if tier == "quick" else ["default", "nodefault"]
     rep.configs = configs
     for cfg in configs:
